@@ -56,6 +56,20 @@ func copyTree(src, dst string) error {
 
 func runVariants(prop, repo, verif string, baseline map[string]bool) ([]variantResult, bool) {
 	files, _ := filepath.Glob(filepath.Join(verif, "variants", prop+"__*.patch"))
+	// shared (behaviour-preserving) variants name the properties they are run for in a "# props:" header
+	shared, _ := filepath.Glob(filepath.Join(verif, "variants", "ALL__*.patch"))
+	for _, f := range shared {
+		if b, err := os.ReadFile(f); err == nil {
+			for _, l := range strings.Split(string(b), "\n") {
+				if strings.HasPrefix(l, "# props:") && (strings.Contains(l, prop) || strings.Contains(l, "all")) {
+					files = append(files, f)
+				}
+				if strings.HasPrefix(l, "--- ") {
+					break
+				}
+			}
+		}
+	}
 	sort.Strings(files)
 	self, _ := os.Executable()
 	results := make([]variantResult, len(files))
